@@ -993,12 +993,26 @@ def list_new(env):
         v = rng.choice(outer)
         env.feat("list comprehension over the name of an outer variable (" + env.vars[v].split("[")[0] + ")")
     rngarg = lit_int(rng) if rng.random() < 0.6 or not env.vars_of("int") else rng.choice(env.vars_of("int"))
-    if rng.random() < 0.7:
-        body = rng.choice([f"{v} * {v}", f"{v} + 1", f"{v}", f"{v} * 2 + {lit_int(rng)}", f"({v} % 3)"])
+    k2 = rng.random()
+    if k2 < 0.25:             # range() with two / three arguments, a negative step
+        lo, hi = rng.randint(0, 3), rng.randint(4, 9)
+        rngarg = rng.choice([f"{lo}, {hi}", f"{lo}, {hi}, 2", f"{hi}, {lo}, -1", f"{lo}, {rngarg}"])
+        env.feat("list comprehension over range() with 2-3 arguments")
+    k3 = rng.random()
+    if k3 < 0.55:
+        body = rng.choice([f"{v} * {v}", f"{v} + 1", f"{v}", f"{v} * 2 + {lit_int(rng)}", f"({v} % 3)", f"({v} if {v} > 1 else 0)"])
         env.vars[name] = "list[int]"
-    else:
-        body = rng.choice([f"{v} * 0.5", f"{v} / 2.0"])
+    elif k3 < 0.75:
+        body = rng.choice([f"{v} * 0.5", f"{v} / 2.0"] + [f"{v} * {f}" for f in env.vars_of("float") if f != v][:2])
         env.vars[name] = "list[float]"
+    elif k3 < 0.9:
+        body = rng.choice([f"str({v})", gen_str_literal(env), f"str({v}) + {gen_str_literal(env)}"] + [f"str({v}) + {t}" for t in env.vars_of("String") if t != v][:2])
+        env.vars[name] = "list[String]"
+        env.feat("list comprehension of strings")
+    else:
+        body = rng.choice([f"{v} > 1", f"{v} % 2 == 0"])
+        env.vars[name] = "list[bool]"
+        env.feat("list comprehension of bools")
     env.feat("list comprehension")
     return [f"{name} = [{body} for {v} in range({rngarg})]"]
 
